@@ -1,5 +1,10 @@
 """C17 -- memory held for a streamed text log does not grow with its size.
 
+(Oracle revised after a false alarm in the thorough tier, see DESIGN 9.6: the marks are compared with a bound
+computed from the content's own density -- the densest stretch of consecutive blocks plus the messages in flight --
+instead of fixed slacks between sizes; a leak grows with the size and crosses any such bound.)
+
+
 Whether the worker can release a message is a scheduling question: it removes the message from its
 own index and then `Arc::try_unwrap`s it; if the coordinator still holds it (in the channel or as the
 pending datum) the lines and blocks under it stay referenced. So the check runs the *same* generator
@@ -90,20 +95,47 @@ def gen_log(rng, bsz, style, nblocks):
     return bytes(out), msgs, maxmsg
 
 
-def bound(bsz, maxmsg, kind):
-    """absolute bound K(bsz, longest message, capacity): messages in flight = capacity + pending +
-    the one being built + the previous one kept for the drop attempt, each spanning
-    ceil(maxmsg/bsz)+1 blocks; explicit slack on top."""
-    inflight = CAP + 4
-    per = maxmsg // bsz + 2
-    if kind == "blocks":
-        return inflight * per + 16
-    if kind == "syslines":
-        return inflight + 12
-    return None
+W_BLOCKS = 4      # a message is released when the reader is two blocks past it; plus the block being read and one of look-ahead
+INFLIGHT = CAP + 4  # capacity + pending + the one being built + the previous one kept for the drop attempt
 
 
-SLACK = {"blocks_high": 12, "lines_high": 24, "syslines_high": 10}
+def density_bounds(msgs, bsz, nblocks, windowed):
+    """Model bound for the three marks, computed from the actual content: what any reader that releases data two
+    blocks behind itself must hold = the densest stretch of W_BLOCKS consecutive blocks, plus the messages in flight
+    between worker and printer. Independent of the file size unless the content itself gets denser."""
+    per_block_msgs = {}
+    per_block_lines = {}
+    off = 0
+    span_max = 1
+    lines_per_msg_max = 1
+    for m in msgs:
+        b0 = off // bsz
+        b1 = (off + len(m.data) - 1) // bsz
+        nl = m.data.count(b"\n") + (0 if m.data.endswith(b"\n") else 1)
+        per_block_msgs[b0] = per_block_msgs.get(b0, 0) + 1
+        per_block_lines[b0] = per_block_lines.get(b0, 0) + nl
+        span_max = max(span_max, b1 - b0 + 1)
+        lines_per_msg_max = max(lines_per_msg_max, nl)
+        off += len(m.data)
+
+    def dens(d):
+        best = 0
+        for b in d:
+            best = max(best, sum(d.get(b + k, 0) for k in range(W_BLOCKS)))
+        return best
+    dm, dl = dens(per_block_msgs), dens(per_block_lines)
+    out = {"syslines_high": dm + INFLIGHT + 6,
+           "lines_high": dl + INFLIGHT * lines_per_msg_max + 12,
+           "blocks_high": INFLIGHT * (span_max + 1) + W_BLOCKS + 8}
+    if windowed:
+        # the binary search probes about log2(blocks) places and may keep what it parsed at each of them
+        probes = max(1, int(nblocks).bit_length()) + 2
+        one_block_msgs = max(per_block_msgs.values()) if per_block_msgs else 1
+        one_block_lines = max(per_block_lines.values()) if per_block_lines else 1
+        out["syslines_high"] += probes * (one_block_msgs + 2)
+        out["lines_high"] += probes * (one_block_lines + 2 * lines_per_msg_max)
+        out["blocks_high"] += probes * (span_max + 1)
+    return out
 
 
 def run_case(seed, i, tier):
@@ -162,27 +194,19 @@ def run_case(seed, i, tier):
             marks[mult] = mk
             if mk.get("drop_sysline_err", 0) > 0:
                 cr.probes["drop_failed_because_coordinator_held_the_message"] += 1
-            for key, kind in (("blocks_high", "blocks"), ("syslines_high", "syslines")):
-                b = bound(bsz, maxmsg, kind)
-                if windowed:
-                    b += 4 * max(1, (n0 * mult).bit_length())
-                if key in mk and mk[key] > b and mk[key] > marks.get(1, mk).get(key, 0):
-                    vs.append(("mark_over_absolute_bound_" + key,
-                               "%s=%d > K=%d (bsz=%d longest message=%d) at %d blocks" % (key, mk[key], b, bsz, maxmsg, n0 * mult)))
-        if mult > 1 and 1 in marks and mult in marks:
+            bounds = density_bounds(msgs, bsz, n0 * mult, windowed)
             for key in ("blocks_high", "lines_high", "syslines_high"):
-                a, b = marks[1].get(key), marks[mult].get(key)
-                import math
-                extra = (4 * int(math.ceil(math.log2(max(2, n0 * mult))))) if windowed else 0
-                if a is not None and b is not None and b > a + SLACK[key] + extra:
-                    vs.append(("mark_grows_with_size_" + key,
-                               "%s: %d at %d blocks -> %d at %d blocks (slack %d); marks=%s" % (
-                                   key, a, n0, b, n0 * mult, SLACK[key], {m: marks[m] for m in marks})))
+                if key in mk and mk[key] > bounds[key]:
+                    vs.append(("mark_over_model_bound_" + key,
+                               "%s=%d > bound %d computed from the content (densest %d consecutive blocks + %d messages in flight%s) at %d blocks; marks so far %s" % (
+                                   key, mk[key], bounds[key], W_BLOCKS, INFLIGHT, " + binary-search allowance" if windowed else "",
+                                   n0 * mult, {m: marks[m] for m in marks})))
         for (cls, detail) in vs:
             known = classify_known(cls, style, container, mk)
             rp = mergecheck.make_replay(srcs, opts, plan, "UTC", res, {"class": cls, "c17": {
-                "bsz": bsz, "style": style, "n0": n0, "mult": mult, "container": container,
-                "base_marks": marks.get(1), "maxmsg": maxmsg}})
+                "bsz": bsz, "style": style, "n0": n0, "mult": mult, "container": container, "windowed": windowed,
+                "base_marks": marks.get(1), "maxmsg": maxmsg},
+                "sources_unfiltered": mergecheck.sources_to_json([merge.Source(path, "text", msgs, stored, content, container, descr)]) if windowed else None})
             cr.violations.append(Violation(cls, "style=%s container=%s bsz=%d policy=%s n0=%d x%d: %s" % (
                 style, container, bsz, pol, n0, mult, detail), rp, known=known))
         if vs:
@@ -220,15 +244,11 @@ def classes_of(rp):
     if mk is None:
         cl.add("summary_missing")
         return cl
-    for key, kind in (("blocks_high", "blocks"), ("syslines_high", "syslines")):
-        b = bound(c17["bsz"], c17["maxmsg"], kind)
-        if mk.get(key, 0) > b:
-            cl.add("mark_over_absolute_bound_" + key)
-    base = c17.get("base_marks")
-    if base and c17["mult"] > 1:
-        for key in ("blocks_high", "lines_high", "syslines_high"):
-            if key in base and key in mk and mk[key] > base[key] + SLACK[key]:
-                cl.add("mark_grows_with_size_" + key)
+    bounds = density_bounds(srcs[0].msgs if not c17.get("windowed") else mergecheck.sources_from_json(rp["sources_unfiltered"])[0].msgs,
+                            c17["bsz"], c17["n0"] * c17["mult"], c17.get("windowed", False))
+    for key in ("blocks_high", "lines_high", "syslines_high"):
+        if key in mk and mk[key] > bounds[key]:
+            cl.add("mark_over_model_bound_" + key)
     return cl
 
 
@@ -242,7 +262,8 @@ RULE = ("one case = one streaming text source (plain/gz/bz2/lz4; line styles sho
         "n, 2n, 4n blocks under one adversarial policy (starved coordinator, starved worker, random, round-robin, "
         "worker-first, PCT); marks read from --summary. non-trivial = every run; distinct = (scenario, size, decision sequence)")
 ASSUMPTIONS = ["the --summary high-water marks are the measure the property names; RSS is not measured",
-               "slack: blocks +12, lines +24, syslines +10 between n and 4n; absolute bound (cap+4)*(ceil(longest/bsz)+2)+16 blocks"]
+               "bound = densest 4 consecutive blocks of the generated content + 9 messages in flight (+ slack 6 syslines / 12 lines / 8 blocks); "
+               "with a window on a plain file + (log2(blocks)+2) probes x one block's worth"]
 
 
 def main(tier):
